@@ -192,7 +192,7 @@ Proof.
           - subst; reflexivity.
           - simpl in H. rewrite Eh in H. discriminate. }
         rewrite Hsk.
-        destruct (cls_for_help _ v); [|reflexivity].
+        destruct (cls_for_help _ _ v); [|reflexivity].
         destruct r; reflexivity.
       * rewrite (apply_local_dd fx dd dd2 (d_root D) [] c n v Gn).
         destruct (apply_local _ _ _ _ _ _ _); try reflexivity; apply IH; assumption.
@@ -229,7 +229,7 @@ Proof.
     { destruct (parse_flags _ _); [apply IH; exact F|reflexivity]. }
     destruct (is_suffix_help n) as [h|].
     + destruct (find_cls h (d_root D)) as [co|].
-      * rewrite F. destruct (cls_for_help _ v); [|reflexivity]. destruct r; reflexivity.
+      * rewrite F. destruct (cls_for_help _ _ v); [|reflexivity]. destruct r; reflexivity.
       * destruct (apply_local _ _ _ _ _ _ _); try reflexivity; apply IH; exact F.
     + destruct (apply_local _ _ _ _ _ _ _); try reflexivity; apply IH; exact F.
   - destruct (str_eqb n s_help); [reflexivity|].
